@@ -36,8 +36,10 @@ def root_fn(defpath):
     return re.sub(r"(::\{closure#\d+\})+$", "", defpath)
 
 
-def bodies_in(prog, module_prefix):
-    return [b for d, b in prog.bodies.items() if d.startswith(module_prefix)]
+def bodies_in(prog, module_prefix, include_derived=False):
+    """bodies of a module (incl. trait impls `<module::T as ..>::m`); #[derive]-generated impls excluded by default"""
+    return [b for d, b in prog.bodies.items() if (d.startswith(module_prefix) or d.startswith("<" + module_prefix))
+            and (include_derived or not b.rec.get("derived"))]
 
 
 def site_of(c):
@@ -77,7 +79,7 @@ def all_field_writers(prog, owner, module_prefix=None):
     """field -> {root fn: [(site, kind)]} for direct writes and &mut borrows of `owner`'s fields"""
     out = {}
     for d, b in prog.bodies.items():
-        if module_prefix and not d.startswith(module_prefix):
+        if module_prefix and not (d.startswith(module_prefix) or d.startswith("<" + module_prefix)):
             continue
         for (bb, o, name, rv, sp, dst) in b.field_writes():
             if o == owner:
